@@ -496,7 +496,7 @@ def check_export(ctx, rep):
         if k in orient_keys:
             # value written after the key must be toString(row orientation), unless the literal itself carries a constant
             tail = s.lower().split(k)[-1].replace(":", "").strip()
-            nxt = items[i + 1][0] if i + 1 < len(items) else ("none",)
+            nxt = expand_locals(ctx, f, items[i + 1][0]) if i + 1 < len(items) else ("none",)
             if tail:
                 rep.violation("N5", items[i][2], f, "'%s' written with the constant '%s'" % (k, tail),
                               "the reader interprets this key as an orientation name: the row orientation is lost", key="exportIspdRows|%s constant" % k)
@@ -511,6 +511,9 @@ def check_export(ctx, rep):
     g = prog.func1(CQ + "exportIspdNets")
     loops = [for_loop_info(x) for x in walk(g.body) if x.get("kind") == "ForStmt"]
     loops = [l for l in loops if l]
+    for l in loops:
+        if l["hi"]:
+            l["hi"] = expand_locals(ctx, g, l["hi"])
     netl = [l for l in loops if l["hi"] and l["hi"][0] == "call" and l["hi"][1] == CQ + "Circuit::nbNets"]
     pinl = [l for l in loops if l["hi"] and l["hi"][0] == "call" and l["hi"][1] == CQ + "Circuit::nbPinsNet"]
     if not netl or not pinl:
@@ -525,12 +528,15 @@ def check_export(ctx, rep):
         net, pin = netl[0]["var"], pinl[0]["var"]
         cobj = None
         vals = {}
-        for y in walk(pinl[0]["body"]):
-            if y.get("kind") == "VarDecl" and qt(y) in ("double", "float") and children(y):
-                vals[y.get("name")] = (y, expand_locals(ctx, g, canon(children(y)[-1])))
+        # the two floating-point values streamed for each pin, in order: x offset then y offset (the reader's order)
+        inside = {id(y) for y in walk(pinl[0]["body"])}
+        streamed = [(a, c) for c, a, x_ in stream_items(g) if id(x_) in inside and c[0] != "lit" and
+                    (desugared(a) or qt(a) or "").replace("const ", "").strip() in ("double", "float")]
+        for axis, (a, c) in zip(("x", "y"), streamed[:2]):
+            vals[axis] = (a, expand_locals(ctx, g, c))
         for axis, raw, size in (("x", "pinXOffsets_", "cellWidth_"), ("y", "pinYOffsets_", "cellHeight_")):
             if axis not in vals:
-                rep.unknown("XF", g.decl, g, "pin %s offset" % axis, "local `%s` not found" % axis)
+                rep.unknown("XF", g.decl, g, "pin %s offset" % axis, "no floating-point value streamed for it in the pin loop")
                 continue
             node, v = vals[axis]
             what = "pin %s offset written as %s" % (axis, pretty(v)[:100])
